@@ -493,7 +493,7 @@ pub fn run(cx: &mut Ctx) {
         check_timestamp(cx, t, &mut r);
     }
     // D. zoned: named zones from the system database x instants around every transition
-    let years = zones::probe_years(&mut Rng::new(cx.seed), false);
+    let years = zones::probe_years(&mut Rng::new(cx.seed), cx.thorough);
     let sys = zones::system();
     let stride = if cx.thorough { 1 } else { cx.opt_u64("zone_stride", 2) };
     let mut nz = 0u64;
@@ -510,7 +510,7 @@ pub fn run(cx: &mut Ctx) {
         };
         nz += 1;
         let zid = format!("sys:{}", name);
-        let probes = tzmon::probe_instants(&model, &years, &mut r, 60);
+        let probes = tzmon::probe_instants(&model, &years, &mut r, if cx.thorough { 1500 } else { 60 });
         let zh = hash64(zid.as_bytes());
         let step = (probes.len() / if cx.thorough { 40_000 } else { 3_000 }).max(1);
         for (k, &(s, ns)) in probes.iter().enumerate() {
